@@ -32,7 +32,17 @@ impl Tok {
     /// the generator)
     pub fn render(&self) -> String {
         match &self.atom {
-            Atom::Id(s) => format!("Id(\"{s}\")"),
+            Atom::Id(s) => match s.as_str() {
+                // the words the generator pastes together (an identifier that spells a keyword is
+                // that keyword, however it came about)
+                "static" => "Static".into(),
+                "const" => "Const".into(),
+                "return" => "Return".into(),
+                "true" => "True".into(),
+                "inout" => "InOut".into(),
+                "struct" => "Struct".into(),
+                _ => format!("Id(\"{s}\")"),
+            },
             Atom::Int(n) => format!("LiteralInt({n})"),
             Atom::Punct(c) => match c {
                 ';' => "Semicolon".into(),
@@ -169,6 +179,10 @@ fn lex_line(text: &str, file: &str, line: u32, col0: u32) -> Result<Vec<Tok>, St
     let b: Vec<char> = text.chars().collect();
     let mut out = Vec::new();
     let mut i = 0usize;
+    // Lines of an error gadget that C14 plants (all their names start with zz_) are outside the
+    // macro subset by design - operators, brackets, member access. The model only has to carry
+    // them to the place where they are emitted: no zz_ name is ever a macro.
+    let lenient = text.contains("zz_");
     // column counts bytes; the subset is ASCII except an optional BOM handled by the caller
     while i < b.len() {
         let c = b[i];
@@ -215,7 +229,7 @@ fn lex_line(text: &str, file: &str, line: u32, col0: u32) -> Result<Vec<Tok>, St
                     i += 1;
                 }
             }
-            if i < b.len() && (is_ident_start(b[i]) || b[i] == '.') {
+            if i < b.len() && (is_ident_start(b[i]) || b[i] == '.') && !lenient {
                 return Err("numeric literal with suffix".into());
             }
             let txt: String = b[s..i].iter().collect();
@@ -236,7 +250,9 @@ fn lex_line(text: &str, file: &str, line: u32, col0: u32) -> Result<Vec<Tok>, St
                 col,
                 text: txt,
             });
-        } else if matches!(c, ';' | '(' | ')' | ',' | '=' | '+' | '!' | '{' | '}') {
+        } else if matches!(c, ';' | '(' | ')' | ',' | '=' | '+' | '!' | '{' | '}')
+            || (lenient && c.is_ascii_punctuation() && !matches!(c, '#' | '"' | '\'' | '\\' | '/'))
+        {
             out.push(Tok {
                 atom: Atom::Punct(c),
                 file: file.to_string(),
@@ -598,6 +614,24 @@ impl State<'_> {
                         let pasted = match (l, r) {
                             (Atom::Id(a), Atom::Id(b)) => format!("{a}{b}"),
                             (Atom::Id(a), Atom::Int(_)) => format!("{a}{}", toks[i + 4].text),
+                            (Atom::Int(_), Atom::Int(_)) => {
+                                // two plain decimal spellings paste into one decimal literal
+                                let (a, b) = (&toks[i + 2].text, &toks[i + 4].text);
+                                let plain = |x: &str| !x.is_empty() && x.bytes().all(|c| c.is_ascii_digit());
+                                if !plain(a) || !plain(b) || a.starts_with('0') || a.len() + b.len() > 9 {
+                                    return Err(Stop::Unmodelled("## of literals outside the subset".into()));
+                                }
+                                let text = format!("{a}{b}");
+                                out.push(Tok {
+                                    atom: Atom::Int(text.parse().unwrap_or(0)),
+                                    file: "<scratch space>".into(),
+                                    line: 1,
+                                    col: 1,
+                                    text,
+                                });
+                                i += 6;
+                                continue;
+                            }
                             _ => return Err(Stop::Unmodelled("## operands outside the subset".into())),
                         };
                         if self.defined(&pasted) {
